@@ -795,6 +795,71 @@ func (x *c19ctx) noHome(ch string) {
 	}
 }
 
+// cmdNamedDirs: `ps3netsrv-go server` started in a directory that holds sub-directories called
+// server, decrypt and make-iso; the root comes from channel ch (no --root flag).
+func (x *c19ctx) cmdNamedDirs(ch string) {
+	run := x.e.Run
+	id := x.seq.Add(1)
+	base := filepath.Join(x.e.Scratch, "c19", fmt.Sprintf("%04d", id))
+	cwd, home, xdg, root := filepath.Join(base, "cwd"), filepath.Join(base, "home"), filepath.Join(base, "xdg"), filepath.Join(base, "root")
+	for _, d := range []string{cwd, home, xdg, root, filepath.Join(cwd, "server"), filepath.Join(cwd, "decrypt"), filepath.Join(cwd, "make-iso")} {
+		must(os.MkdirAll(d, 0o755))
+	}
+	must(os.WriteFile(filepath.Join(root, "markerW.txt"), []byte("w"), 0o644))
+	must(os.WriteFile(filepath.Join(cwd, "server", "markerA.txt"), []byte("a"), 0o644))
+	L := &c19Launch{base: base, root: root, files: map[string]string{}, settingN: "root(cwd has a directory named server)", assigns: []c19Assign{{Ch: ch, Val: root}}}
+	L.env = []string{"HOME=" + home, "XDG_CONFIG_HOME=" + xdg}
+	var global []string
+	content := "[server]\nroot = " + root + "\n"
+	switch ch {
+	case c19EnvVar:
+		L.env = append(L.env, "PS3NETSRV_ROOT="+root)
+	case c19Ini:
+		f := filepath.Join(base, "given-by-flag.ini")
+		must(os.WriteFile(f, []byte(content), 0o644))
+		L.files[f] = content
+		global = append(global, "--config="+f)
+	case c19EnvFile:
+		f := filepath.Join(base, "given-by-env.ini")
+		must(os.WriteFile(f, []byte(content), 0o644))
+		L.files[f] = content
+		L.env = append(L.env, "PS3NETSRV_CONFIG_FILE="+f)
+	case c19CwdIni:
+		f := filepath.Join(cwd, "config.ini")
+		must(os.WriteFile(f, []byte(content), 0o644))
+		L.files[f] = content
+	}
+	L.args = append(global, "server", "--listen-addr=127.0.0.1:0")
+	L.p, L.err = host.SpawnBin(x.e.Bin, L.args, host.Opt{Dir: x.e.Dir("logs"), Tag: fmt.Sprintf("c19-%04d", id), Env: L.env}, cwd, true)
+	run.Eval(1)
+	run.Count("launches", 1)
+	if L.p == nil || L.err != nil {
+		wit := L.witness()
+		if L.p != nil {
+			L.p.Stop()
+		}
+		run.Violate("no-effect", "root/"+ch+"+dir-named-server", fmt.Sprintf("`ps3netsrv-go server` with root given via %s did not start in a working directory that contains a directory named server: %v", ch, L.err), wit)
+		return
+	}
+	h, port := L.mainAddr()
+	if h == "" || h == "0.0.0.0" {
+		h = "127.0.0.1"
+	}
+	o := x.probeRoot(L, fmt.Sprintf("%s:%d", h, port))
+	wit := L.witness()
+	L.p.Stop()
+	if o.inconclusive {
+		run.Inconclusive(fmt.Sprintf("dir-named-server %s: %s", ch, o.note))
+		return
+	}
+	if o.state != "root-sees:W" {
+		wit["observed"] = o.state
+		run.Violate("no-effect", "root/"+ch+"+dir-named-server", fmt.Sprintf("root given via %s is not the directory served when the working directory contains a directory named server (observed %s, want root-sees:W; A is ./server)", ch, o.state), wit)
+		return
+	}
+	run.Sig("root via %s with ./server ./decrypt ./make-iso present -> in force", ch)
+}
+
 // malformed: the value must stop start-up (exit status != 0, never "Listening").
 func (x *c19ctx) malformed(s *c19Setting, ch, val, label string) {
 	run := x.e.Run
@@ -1036,6 +1101,14 @@ func C19(e *Env) {
 	for _, ch := range []string{c19CwdIni, c19EnvFile, c19Ini} {
 		ch := ch
 		cases = append(cases, func() { x.noHome(ch) })
+	}
+
+	// 8. the working directory contains directories that are named like the sub-commands (a folder
+	// "server" next to the executable is nothing unusual): a root given through a non-flag channel must
+	// still be the one served
+	for _, ch := range []string{c19EnvVar, c19CwdIni, c19EnvFile, c19Ini} {
+		ch := ch
+		cases = append(cases, func() { x.cmdNamedDirs(ch) })
 	}
 
 	ParallelDo(len(cases), 8, func(i int) { cases[i]() })
